@@ -196,6 +196,9 @@ func FamilyScenario(family string, seed int64, i, blocks, maxTx int) *Scenario {
 	if family == "alleg" {
 		gs = AllegGenesis()
 	}
+	if family == "eth" {
+		gs = EthGenesis()
+	}
 	id := fmt.Sprintf("%s-%d-%d", family, seed, i)
 	g := NewGen(seed*1000003+int64(i), gs)
 	switch family {
